@@ -14,7 +14,7 @@ sys.path.insert(0, os.path.dirname(os.path.abspath(__file__)))
 import assemble as A
 
 VERIF = A.VERIF
-BUILD = os.path.join(VERIF, 'build')
+BUILD = os.environ.get('VERIF_BUILD_DEV', os.path.join(VERIF, 'build'))   # env override: development aid only (isolated scratch runs); no registered command sets it
 CACHE = os.path.join(BUILD, 'cache')
 VERUS = os.environ.get('VERUS', 'verus')
 
@@ -163,10 +163,24 @@ def run_verus_once(path, extra, timeout):
             hard.append('the assembled text is rejected before verification: %s (assembled line %d: %s)' % (d['message'], sp0['line_start'], (sp0['text'][0]['text'].strip()[:120] if sp0.get('text') else '')))
             hard_lines.append(sp0['line_start'])
         elif d.get('level') == 'error' and d.get('spans'):
-            diags.append(dict(message=d['message'], spans=[dict(line_start=s['line_start'], line_end=s['line_end'], col=s['column_start'],
-                                                              is_primary=s['is_primary'], label=s.get('label'),
-                                                              text=(s['text'][0]['text'].strip() if s.get('text') else '')) for s in d['spans']],
-                              rendered=d.get('rendered', '')))
+            # a span inside a macro of another file (panic!, assert!, vec!: the definition lives in vstd / std) is replaced by the place in OUR file
+            # where the macro is used; spans that never reach our file are dropped (their line numbers mean nothing here)
+            base = os.path.basename(path)
+            def local(sp):
+                seen = 0
+                while sp is not None and os.path.basename(sp.get('file_name') or '') != base and seen < 20:
+                    sp = (sp.get('expansion') or {}).get('span'); seen += 1
+                return sp if sp is not None and os.path.basename(sp.get('file_name') or '') == base else None
+            sps = []
+            for s0 in d['spans']:
+                s = local(s0)
+                if s is None: continue
+                sps.append(dict(line_start=s['line_start'], line_end=s['line_end'], col=s['column_start'], is_primary=s0['is_primary'], label=s0.get('label'),
+                                text=(s['text'][0]['text'].strip() if s.get('text') else '')))
+            if not sps:
+                hard.append('a diagnostic of the verifier has no location in the assembled text: %s' % d['message'][:200]); continue
+            if not any(x['is_primary'] for x in sps): sps[0]['is_primary'] = True
+            diags.append(dict(message=d['message'], spans=sps, rendered=d.get('rendered', '')))
         elif d.get('level') == 'error' and not d.get('spans') and 'aborting due to' not in d['message']:
             hard.append(d['message'])
     funcs = {}; results = {}; times = {}
@@ -192,7 +206,7 @@ def run_unit(name, tier='quick', use_cache=True, extra_args=(), log=print, degra
     args = ['--rlimit', rlimit] + list(extra_args)
     for vm in cfg.get('verify_only', []): args += ['--verify-module', vm]
     if cfg.get('compile'): args += ['--compile', '-o', os.path.join(BUILD, 'bin_%s' % name), '-C', 'opt-level=2']
-    key = hashlib.sha256((asm.text + '\0' + ' '.join(args) + '\0v5').encode()).hexdigest()[:24]
+    key = hashlib.sha256((asm.text + '\0' + ' '.join(args) + '\0v6').encode()).hexdigest()[:24]
     cpath = os.path.join(CACHE, '%s-%s.json' % (name, key))
     obls, marks = obligations_of(asm.text, asm.items, cfg)
     if cfg.get('verify_only'):
